@@ -18,7 +18,7 @@ from wv.par import pmap
 
 CORE = ("requests", "total_outbufs_len", "will_close", "close_when_flushed", "connected")
 OBJS = ["total_outbufs_len", "close_when_flushed", "will_close", "requests_lock", "outbuf_lock", "requests", "connected", "trigger", "sock", "next", "loop", "L"]
-SUFFIX = re.compile(r"_(\d|c|s|io|w|ws|svc)$")
+SUFFIX = re.compile(r"_(\d|c|s|e|io|w|ws|svc|scio|scw)$")
 
 
 def labels():
@@ -39,7 +39,7 @@ def labels():
                     if kind in ("rd", "wr", "acq", "tryacq", "rel", "notify", "wait", "send", "recv", "drain", "pull", "select", "accept", "close", "app"):
                         hit = "%s.%s.%s" % (func, kind, o)
                         break
-        if n in ("cl_connect", "cl_send", "cl_read"):
+        if n in ("cl_connect", "cl_send", "cl_read", "cl_await100"):
             hit = "client.%s" % n[3:]
         if hit:
             sig[n] = hit
@@ -53,7 +53,7 @@ def event_sig(name, label):
     kind, obj, func = (list(label) + ["?", "?"])[:3]
     func = func.strip("_")
     if kind == "client":
-        return "client.%s" % {"connect": "connect", "send": "send", "read": "read"}.get(obj, obj)
+        return "client.%s" % {"connect": "connect", "send": "send", "read": "read", "await100": "await100"}.get(obj, obj)
     if kind in ("rd", "wr"):
         return "%s.%s.%s" % (func, kind, obj) if obj in CORE else None
     if kind in ("acq", "tryacq", "rel", "notify", "wait"):
@@ -77,7 +77,7 @@ def constants_of(scn):
     if len(c) != 1 or scn.get("use_poll") or c[0].get("faults") or scn.get("accept_faults"):
         return None
     reqs = {r["k"]: r for r in c[0]["requests"]}
-    if any(r.get("kind", "plain") not in ("plain", "close") for r in reqs.values()):
+    if any(r.get("kind", "plain") not in ("plain", "close", "expect") or r.get("headers") for r in reqs.values()):
         return None
     a = scn["adj"]
     if a.get("send_bytes", 1) != 1 or "outbuf_high_watermark" in a:
@@ -85,26 +85,38 @@ def constants_of(scn):
     apps = scn.get("apps", {})
     if any(v.get("chunks", [3]) != [3] or v.get("cl", "exact") != "exact" or v.get("write") or v.get("raise_at") is not None for v in apps.values()):
         return None
-    sends, reads = [], []
-    order = [r["k"] for r in c[0]["requests"]]
-    pos = 0
+    sends, ops = [], []
+    P = lambda k, what: "[rid |-> %d, close |-> %s, what |-> \"%s\"]" % (k, "TRUE" if reqs[k].get("kind") == "close" else "FALSE", what)
+    # the byte stream as a sequence of pieces; a send must end on a piece boundary to be in the slice
+    stream = []
+    for r in c[0]["requests"]:
+        h, b = h_channel.request_bytes(r)
+        if r.get("kind") == "expect":
+            stream += [(len(h), P(r["k"], "head")), (len(b), P(r["k"], "body"))]
+        else:
+            stream.append((len(h) + len(b), P(r["k"], "full")))
     for act in c[0]["client"]:
         if act[0] == "send":
-            data = act[1]
-            n = data.count(b"\r\n\r\n")
-            ks = order[pos:pos + n]
-            pos += n
-            sends.append("<<%s>>" % ", ".join("[rid |-> %d, close |-> %s]" % (k, "TRUE" if reqs[k].get("kind") == "close" else "FALSE") for k in ks))
+            n, ps = len(act[1]), []
+            while n > 0 and stream and stream[0][0] <= n:
+                n -= stream[0][0]
+                ps.append(stream.pop(0)[1])
+            if n != 0 or not ps:
+                return None
+            sends.append("<<%s>>" % ", ".join(ps))
+            ops.append('[op |-> "send", n |-> 0]')
         elif act[0] == "read":
-            reads.append(str(act[1]))
+            ops.append('[op |-> "read", n |-> %d]' % act[1])
         elif act[0] == "readall":
-            reads.append("-1")
+            ops.append('[op |-> "read", n |-> -1]')
         elif act[0] == "readall_after_block":
-            reads.append("-2")
+            ops.append('[op |-> "read", n |-> -2]')
+        elif act[0] == "await100":
+            ops.append('[op |-> "await100", n |-> %d]' % act[1])
         elif act[0] != "connect":
             return None
     room = c[0].get("room")
-    return {"MSends": "<<%s>>" % ", ".join(sends), "MReads": "<<%s>>" % ", ".join(reads), "MRoom": "-1" if room is None else str(room),
+    return {"MSends": "<<%s>>" % ", ".join(sends), "MOps": "<<%s>>" % ", ".join(ops), "MRoom": "-1" if room is None else str(room),
             "MWorkers": "{%s}" % ", ".join('"w%d"' % i for i in range(scn.get("workers", 1))), "Lookahead": a.get("channel_request_lookahead", 0)}
 
 
@@ -154,13 +166,13 @@ def record(args):
     return uniq
 
 
-MC_INVS = ["WireIsPrefix", "InOrderExactlyOnce", "OneAtATime", "NoExecAfterCloseDecision", "TornOnceByIO", "NoCrash", "NoLostWakeup", "AllAnswered"]
+MC_INVS = ["WireIsPrefix", "ResponsesInOrder", "InterimPlacement", "ClientNotLeftWaiting", "InOrderExactlyOnce", "OneAtATime", "NoExecAfterCloseDecision", "TornOnceByIO", "NoCrash", "NoLostWakeup", "AllAnswered"]
 
 
 def write_mc_module(wd, name, consts, extends="Channel"):
     with open(os.path.join(wd, name + ".tla"), "w") as f:
-        f.write("---- MODULE %s ----\nEXTENDS %s\nMSends == %s\nMWorkers == %s\nMRoom == %s\nMReads == %s\n" % (
-            name, extends, consts["MSends"], consts["MWorkers"], consts["MRoom"], consts["MReads"]))
+        f.write("---- MODULE %s ----\nEXTENDS %s\nMSends == %s\nMWorkers == %s\nMRoom == %s\nMOps == %s\n" % (
+            name, extends, consts["MSends"], consts["MWorkers"], consts["MRoom"], consts["MOps"]))
         if extends != "Channel":
             sig, internal = labels()
             f.write("MSig == [x \\in {%s} |-> CASE %s]\n" % (", ".join('"%s"' % k for k in sig), " [] ".join('x = "%s" -> "%s"' % kv for kv in sig.items())))
@@ -168,17 +180,28 @@ def write_mc_module(wd, name, consts, extends="Channel"):
         f.write("====\n")
 
 
-CFG = ("CONSTANTS Sends <- MSends\nWorkers <- MWorkers\nRoomInit <- MRoom\nClientReads <- MReads\nLookahead = %d\nSendBytes = 1\nHWM = 16777216\nRespUnits = 2\n%sCHECK_DEADLOCK FALSE\n")
+CFG = ("CONSTANTS Sends <- MSends\nWorkers <- MWorkers\nRoomInit <- MRoom\nClientOps <- MOps\nLookahead = %d\nSendBytes = 1\nHWM = 16777216\nRespUnits = 2\n%sCHECK_DEADLOCK FALSE\n")
 
 
 def mc_scenarios(thorough):
-    R = lambda r, c="FALSE": "[rid |-> %d, close |-> %s]" % (r, c)
-    S = [({"MSends": "<< <<%s, %s>> >>" % (R(1), R(2)), "MWorkers": '{"w0"}', "MRoom": "-1", "MReads": "<<>>", "Lookahead": 0}, "2 pipelined, same read, la=0"),
-         ({"MSends": "<< <<%s>>, <<%s>> >>" % (R(1), R(2)), "MWorkers": '{"w0"}', "MRoom": "0", "MReads": "<<-1>>", "Lookahead": 1}, "2 requests, later read, slow client, la=1"),
-         ({"MSends": "<< <<%s, %s>> >>" % (R(1, "TRUE"), R(2)), "MWorkers": '{"w0"}', "MRoom": "1", "MReads": "<<-1>>", "Lookahead": 1}, "close then plain, la=1")]
+    R = lambda r, c="FALSE", w="full": '[rid |-> %d, close |-> %s, what |-> "%s"]' % (r, c, w)
+    SEND, ALL, AW = '[op |-> "send", n |-> 0]', '[op |-> "read", n |-> -1]', lambda n: '[op |-> "await100", n |-> %d]' % n
+    RD = lambda n: '[op |-> "read", n |-> %d]' % n
+    O = lambda *xs: "<<%s>>" % ", ".join(xs)
+    S = [({"MSends": "<< <<%s, %s>> >>" % (R(1), R(2)), "MWorkers": '{"w0"}', "MRoom": "-1", "MOps": O(SEND), "Lookahead": 0}, "2 pipelined, same read, la=0", "C04 C05 C11"),
+         ({"MSends": "<< <<%s>>, <<%s>> >>" % (R(1), R(2)), "MWorkers": '{"w0"}', "MRoom": "0", "MOps": O(SEND, SEND, ALL), "Lookahead": 1}, "2 requests, later read, slow client, la=1", "C04 C05"),
+         ({"MSends": "<< <<%s, %s>> >>" % (R(1, "TRUE"), R(2)), "MWorkers": '{"w0"}', "MRoom": "1", "MOps": O(SEND, ALL), "Lookahead": 1}, "close then plain, la=1", "C04 C05 C11"),
+         ({"MSends": "<< <<%s, %s>>, <<%s>> >>" % (R(1), R(2, w="head"), R(2, w="body")), "MWorkers": '{"w0"}', "MRoom": "-1", "MOps": O(SEND, AW(1), SEND), "Lookahead": 1},
+          "plain + expecting head in one read, client waits for the interim response, la=1", "C04 C19"),
+         ({"MSends": "<< <<%s>>, <<%s, %s>> >>" % (R(1, w="head"), R(1, w="body"), R(2)), "MWorkers": '{"w0"}', "MRoom": "0", "MOps": O(SEND, ALL, AW(1), SEND), "Lookahead": 0},
+          "expecting request alone, client waits, then body + plain, slow client, la=0", "C19")]
     if thorough:
-        S += [({"MSends": "<< <<%s>>, <<%s>> >>" % (R(1), R(2)), "MWorkers": '{"w0", "w1"}', "MRoom": "0", "MReads": "<<1, -1>>", "Lookahead": 1}, "2 workers, partial drain, la=1"),
-              ({"MSends": "<< <<%s, %s>>, <<%s>> >>" % (R(1), R(2, "TRUE"), R(3)), "MWorkers": '{"w0", "w1"}', "MRoom": "1", "MReads": "<<-1>>", "Lookahead": 2}, "plain, close | plain, la=2, 2 workers")]
+        S += [({"MSends": "<< <<%s>>, <<%s>> >>" % (R(1), R(2)), "MWorkers": '{"w0", "w1"}', "MRoom": "0", "MOps": O(SEND, SEND, RD(1), ALL), "Lookahead": 1}, "2 workers, partial drain, la=1", ""),
+              ({"MSends": "<< <<%s, %s>>, <<%s>> >>" % (R(1), R(2, "TRUE"), R(3)), "MWorkers": '{"w0", "w1"}', "MRoom": "1", "MOps": O(SEND, SEND, ALL), "Lookahead": 2}, "plain, close | plain, la=2, 2 workers", ""),
+              ({"MSends": "<< <<%s>>, <<%s>>, <<%s>>, <<%s>> >>" % (R(1, w="head"), R(1, w="body"), R(2, w="head"), R(2, w="body")), "MWorkers": '{"w0"}', "MRoom": "1",
+                "MOps": O(SEND, ALL, AW(1), SEND, SEND, AW(2), SEND), "Lookahead": 1}, "two expecting requests, slow client, la=1", ""),
+              ({"MSends": "<< <<%s>>, <<%s, %s>>, <<%s>> >>" % (R(1), R(2), R(3, w="head"), R(3, w="body")), "MWorkers": '{"w0", "w1"}', "MRoom": "-1",
+                "MOps": O(SEND, SEND, AW(1), SEND), "Lookahead": 2}, "plain | plain + expecting head, 2 workers, la=2", "")]
     return S
 
 
@@ -186,7 +209,7 @@ def model_check(chk, pid, scns=None, n_traces=None):
     """(1) TLC exhausts the interleavings of the model on small scenarios; (2) executions of the
     real server, recorded at the model's alphabet, are validated against the model."""
     def mc(item):
-        consts, name = item
+        consts, name = item[:2]
         wd = tlc.scratch("chan")
         try:
             write_mc_module(wd, "MC_Chan", consts)
@@ -194,7 +217,7 @@ def model_check(chk, pid, scns=None, n_traces=None):
             return tlc.run("MC_Chan", cfg, workdir=wd, workers=5, timeout=2400)
         finally:
             shutil.rmtree(wd, ignore_errors=True)
-    items = mc_scenarios(chk.thorough)
+    items = [it for it in mc_scenarios(chk.thorough) if chk.thorough or pid in it[2].split()]
     with cf.ThreadPoolExecutor(3) as ex:
         for item, r in zip(items, ex.map(mc, items)):
             chk.add_tlc("MC:Channel %s" % item[1], r, "every interleaving at visible-operation granularity")
